@@ -39,33 +39,36 @@ theorem stepCompile_act (env : Env) (st : State) (r : CReq) (σ : Slot) :
       · simp [h]; cases σ <;> rfl
       · split <;> (simp [h]; cases σ <;> rfl)
 
-/-- `FailedStateSync` ⇒ the belief is untouched -/
+theorem Side.forget_get (b : Side) (σ : Slot) : b.forget.get σ = b.get σ := by
+  cases σ <;> rfl
+
+/-- `FailedStateSync` ⇒ no believed slot changes -/
 theorem stepCompile_bel_fail (env : Env) (st : State) (r : CReq) :
     (wsync env (st r.w).act r.db (preargs (st r.w).bel r)).2 = none →
-    ((stepCompile env st r).1 r.w).bel = (st r.w).bel ∧ (stepCompile env st r).2.used = none ∧
-      (stepCompile env st r).2.res = .syncFail := by
+    (∀ σ, ((stepCompile env st r).1 r.w).bel.get σ = (st r.w).bel.get σ) ∧
+      (stepCompile env st r).2.used = none ∧ (stepCompile env st r).2.res = .syncFail := by
   unfold stepCompile
   simp only []
   generalize wsync env (st r.w).act r.db (preargs (st r.w).bel r) = W
   obtain ⟨a', sres⟩ := W
-  cases sres <;> simp
+  cases sres <;> simp [Side.forget_get]
 
-/-- status 2 ⇒ the belief is untouched although the worker synced -/
-theorem stepCompile_bel_unp (env : Env) (st : State) (r : CReq) (h : r.out = .resultUnpicklable) :
-    ((stepCompile env st r).1 r.w).bel = (st r.w).bel := by
+/-- status 2 ⇒ no believed slot changes although the worker synced -/
+theorem stepCompile_bel_unp (env : Env) (st : State) (r : CReq) (h : r.out = .resultUnpicklable)
+    (σ : Slot) : ((stepCompile env st r).1 r.w).bel.get σ = (st r.w).bel.get σ := by
   unfold stepCompile
   simp only []
   generalize wsync env (st r.w).act r.db (preargs (st r.w).bel r) = W
   obtain ⟨a', sres⟩ := W
-  cases sres <;> simp [h]
+  cases sres <;> simp [h, Side.forget_get]
 
 /-- complete sync and a reply that can be sent ⇒ the callback ran -/
 theorem stepCompile_bel_acked (env : Env) (st : State) (r : CReq) (d : Db3)
     (ho : r.out ≠ .resultUnpicklable) :
     (wsync env (st r.w).act r.db (preargs (st r.w).bel r)).2 = some d →
-    ∃ b', withAck env (st r.w).bel r.db (preargs (st r.w).bel r) = some b' ∧
+    ∃ b', withAck (st r.w).bel r.db (preargs (st r.w).bel r) = some b' ∧
       ∀ σ, ((stepCompile env st r).1 r.w).bel.get σ = b'.get σ := by
-  obtain ⟨b', hb'⟩ := withAck_defined env (st r.w).bel r
+  obtain ⟨b', hb'⟩ := withAck_defined (st r.w).bel r
   unfold stepCompile
   simp only []
   generalize wsync env (st r.w).act r.db (preargs (st r.w).bel r) = W
@@ -84,7 +87,7 @@ theorem stepCompile_used (env : Env) (st : State) (r : CReq) (u : Used) :
     ∃ d, (wsync env (st r.w).act r.db (preargs (st r.w).bel r)).2 = some d ∧
       u = ⟨d.schema, (wsync env (st r.w).act r.db (preargs (st r.w).bel r)).1.glob, d.refl, d.dbcfg,
            (wsync env (st r.w).act r.db (preargs (st r.w).bel r)).1.sys⟩ := by
-  obtain ⟨b', hb'⟩ := withAck_defined env (st r.w).bel r
+  obtain ⟨b', hb'⟩ := withAck_defined (st r.w).bel r
   unfold stepCompile
   simp only []
   generalize wsync env (st r.w).act r.db (preargs (st r.w).bel r) = W
@@ -113,12 +116,12 @@ theorem compile_bel_slot (env : Env) (st : State) (r : CReq) (σ : Slot) :
         ((stepCompile env st r).1 r.w).bel.get σ = some t ∧
         ((stepCompile env st r).1 r.w).act.get σ = some t := by
   cases hW : (wsync env (st r.w).act r.db (preargs (st r.w).bel r)).2 with
-  | none => left; rw [(stepCompile_bel_fail env st r hW).1]
+  | none => left; rw [(stepCompile_bel_fail env st r hW).1 σ]
   | some d =>
     by_cases ho : r.out = .resultUnpicklable
-    · left; rw [stepCompile_bel_unp env st r ho]
+    · left; rw [stepCompile_bel_unp env st r ho σ]
     · obtain ⟨b', hb', hget⟩ := stepCompile_bel_acked env st r d ho hW
-      rcases withAck_slot env _ b' _ _ hb' σ with h | ⟨t, hs, ht⟩
+      rcases withAck_slot _ b' _ _ hb' σ with h | ⟨t, hs, ht⟩
       · left; rw [hget, h]
       · right
         refine ⟨t, hs, by rw [hget, ht], ?_⟩
